@@ -113,12 +113,15 @@ def differs(a, b):
 
 
 def battery(w, mini=False):
+    """requests made after a history (mini: none -- in the exhaustive enumerations the last call of a longer
+    history plays this role)"""
+    if mini:
+        return []
     ops = []
     for g in range(3):
-        ops += [('GetFF', g, 'Fidelity', 'Second', False), ('GetDeriv', g)]
-        if not mini:
-            ops += [('GetCM', g, True), ('GetFF', g, 'Generalized', 'First', False), ('GetPhases', g),
-                    ('Infidelity', g, 'Total', w.traceless, False), ('Cumulant', g, 'Total', True, None)]
+        ops += [('GetFF', g, 'Fidelity', 'Second', False), ('GetDeriv', g), ('GetCM', g, True),
+                ('GetFF', g, 'Generalized', 'First', False), ('GetPhases', g),
+                ('Infidelity', g, 'Total', w.traceless, False), ('Cumulant', g, 'Total', True, None)]
     return ops
 
 
@@ -295,6 +298,8 @@ def run(ctx):
         wk = n % len(WORLDS)
         items.append((wk, random_history(r, wk, bad_user=(n % 6 == 0)), False))
     if ctx.thorough:
+        # all histories of length <= 2 over the full alphabet x 3 grids on a pulse and one copy (two pulse kinds),
+        # all histories of length 3 over the reduced alphabet
         for wk in (0, 1):
             for H in exhaustive_histories(wk, 1, small=False):
                 items.append((wk, H, True))
@@ -338,8 +343,8 @@ def run(ctx):
                                   ','.join(sorted({c[2][0] if c[0] in ('call', 'fail') else c[0] for c in H}))[:80])
             classes[cl] = classes.get(cl, 0) + 1
             if bad:
-                def still(c, wk=wk):
-                    return bool(property_check(wk, c, True)[1]) if history_ok(c) else False
+                def still(c, wk=wk, mini=mini):
+                    return bool(property_check(wk, c, mini)[1]) if history_ok(c) else False
                 small = shrink(wk, H, still)
                 obs2, bad2 = property_check(wk, small)
                 bad2 = bad2 or bad
@@ -373,7 +378,9 @@ def run(ctx):
     # probes outside the alphabet
     d = probe_omega_alias()
     if d:
-        failures.append(dict(kind='prop', observable='stale cache after in-place modification of the caller\'s omega array',
+        # kind 'probe' (not 'prop'): tools/check.py skips the search for a failing input -- and with it the
+        # VIOLATION for a broken obligation -- as soon as one failure of kind prop/corr exists, even a known one
+        failures.append(dict(kind='probe', observable='stale cache after in-place modification of the caller\'s omega array',
                              signature='c07-omega-alias',
                              detail='p.get_filter_function(w); w *= 2; p.get_filter_function(w) serves the filter function of '
                                     'the old frequencies (%s): PulseSequence.omega keeps a reference (np.asarray) to the '
